@@ -61,6 +61,7 @@ func TestVerif_C27(t *testing.T) {
 		{"1.2.3.127:900", false, true}, {"128.0.0.1:900", false, true}, {"126.255.255.255:900", false, true}, {"[::ffff:128.0.0.1]:900", false, true},
 		{"127.255.255.254:1", true, true}, {"[::ffff:127.1.2.3]:900", true, true},
 	}
+	vfC27Scripted(rec)
 	eps := evid.Pick(80, 3000)
 	for ep := 0; ep < eps && rec.Violations() < 30; ep++ {
 		rng := evid.Rng(27, int64(ep))
@@ -618,4 +619,56 @@ func vfC27DumpAgrees(vers uint32, ents []rfc.PmapEntry, reg map[vfPmKey]uint32) 
 		}
 	}
 	return ""
+}
+
+// vfC27Scripted: the short histories every registry goes through, each followed by the full
+// read-back (DUMP v2/v3/v4, GETPORT, GETADDR against GetMappings): a key set, listed, set again with
+// another port (through the wire and through RegisterService), listed, unset, listed, set again.
+func vfC27Scripted(rec *evid.Rec) {
+	for _, viaAPI := range []bool{false, true} {
+		pm := NewPortmapper()
+		pm.logger = log.New(io.Discard, "", 0)
+		lo, _ := net.ResolveTCPAddr("tcp", "127.0.0.1:903")
+		key := vfPmKey{100003, 3, 6}
+		other := vfPmKey{100005, 3, 17}
+		set := func(k vfPmKey, port uint32, xid uint32) {
+			if viaAPI {
+				pm.RegisterService(k.prog, k.vers, k.prot, port)
+				return
+			}
+			pm.handleCall(append(xdrw.CallHeader(xid, 100000, 2, 1, xdrw.Cred{}), (&xdrw.W{}).U32(k.prog).U32(k.vers).U32(k.prot).U32(port).B...), lo)
+		}
+		unset := func(k vfPmKey, xid uint32) {
+			if viaAPI {
+				pm.UnregisterService(k.prog, k.vers, k.prot)
+				return
+			}
+			pm.handleCall(append(xdrw.CallHeader(xid, 100000, 2, 2, xdrw.Cred{}), (&xdrw.W{}).U32(k.prog).U32(k.vers).U32(k.prot).U32(0).B...), lo)
+		}
+		steps := []struct {
+			name string
+			do   func()
+		}{
+			{"SET key->2049", func() { set(key, 2049, 1) }},
+			{"SET other->635", func() { set(other, 635, 2) }},
+			{"SET key->2050 (registered key, another port)", func() { set(key, 2050, 3) }},
+			{"SET key->2051 (again)", func() { set(key, 2051, 4) }},
+			{"UNSET other", func() { unset(other, 5) }},
+			{"SET other->636", func() { set(other, 636, 6) }},
+			{"UNSET key", func() { unset(key, 7) }},
+			{"SET key->2049", func() { set(key, 2049, 8) }},
+		}
+		for i, st := range steps {
+			st.do()
+			rec.Eval(1)
+			// list before and after every step: a listing that was produced once must not be served again
+			// after the registry changed
+			for _, k := range []vfPmKey{key, other} {
+				if what := vfC27ReadBack(pm, k, uint32(8000+10*i)); what != "" {
+					rec.Violate("C27/read-back-disagrees-with-registry/scripted/"+strings.SplitN(what, ":", 2)[0], fmt.Sprintf("after %q (through the Go API: %v): %s", st.name, viaAPI, what), map[string]any{"step": st.name, "via_api": viaAPI})
+				}
+			}
+			rec.Distinct(fmt.Sprintf("scripted|api=%v|step=%d", viaAPI, i))
+		}
+	}
 }
